@@ -588,8 +588,14 @@ pub struct RunOutcome {
 }
 
 /// Run one property: regress replays, generated search, evidence, VIOLATION / KNOWN-FINDING lines.
-pub fn run_property(spec: PropertySpec, tier: Tier, seed: u64) -> i32 {
+pub fn run_property(mut spec: PropertySpec, tier: Tier, seed: u64) -> i32 {
     let start = Instant::now();
+    // development aid only (never used by the registered commands): restrict the run to units whose name contains a substring
+    if let Ok(f) = std::env::var("VERIF_UNITS") {
+        if !f.is_empty() {
+            spec.units.retain(|u| u.name().contains(&f));
+        }
+    }
     let known = Arc::new(KnownFindings::load());
     let wd = if tier.is_quick() {
         spec.watchdog_s.0
